@@ -1,6 +1,7 @@
 package h
 
 import (
+	"strings"
 	"time"
 
 	storetypes "github.com/cosmos/cosmos-sdk/store/types"
@@ -279,8 +280,12 @@ func H_C09_WrkRegister() {
 	we := NewWrkEnv(now)
 	pre := setupWrk(we, 1)
 	signer := rt.Choose(3)
+	owner := Addr(signer).String()
+	if rt.Choose(2) == 1 {
+		owner = strings.ToUpper(owner) // bech32 also accepts the all-upper-case spelling of the same address
+	}
 	msg := &wrktypes.MsgRegisterWrkChain{Moniker: rt.Str("m.moniker"), Name: rt.Str("m.name"), GenesisHash: rt.Str("m.genesis"),
-		BaseType: rt.Str("m.type"), Owner: Addr(signer).String()}
+		BaseType: rt.Str("m.type"), Owner: owner}
 	rt.Assume(msg.ValidateBasic() == nil)
 	rt.Assume(pre.Highest < 18446744073709551615) // stated bound: fewer than 2^64-1 registrations
 	srv := wrkkeeper.NewMsgServerImpl(we.K)
@@ -304,7 +309,7 @@ func H_C09_WrkRegister() {
 	wc, found := we.K.GetWrkChain(we.Ctx, pre.Highest)
 	want := wrktypes.WrkChain{WrkchainId: pre.Highest, Moniker: msg.Moniker, Name: msg.Name, Genesis: msg.GenesisHash, Type: msg.BaseType,
 		Lastblock: 0, NumBlocks: 0, LowestHeight: 0, RegTime: uint64(now.Unix()), Owner: Addr(signer).String()}
-	rt.Assert("C09.stored-exactly-submitted", rt.And(found, wc == want))
+	rt.Assert("C09+C20.stored-exactly-submitted-owner-canonical", rt.And(found, wc == want))
 	l, fl := we.K.GetWrkChainStorageLimit(we.Ctx, pre.Highest)
 	rt.Assert("C08.limit-starts-at-default", rt.And(fl, l.InStateLimit == we.Params.DefaultStorageLimit))
 	// existing registrations untouched
